@@ -19,6 +19,20 @@ import vlib
 from vlib import qlit, ostr, flit, fme
 from props import c01
 
+MANIFEST = dict(
+    text="Machine-checked (Coq 8.16) theorems about the model GENERATED on every run from convert / convert_pressure / convert_loading / "
+         "convert_material / convert_temperature (pointisotherm.py, baseisotherm.py) on top of the generated converters of C01: exact single-step "
+         "theorems for all 100 + 729 + 2x361 representation pairs (labels name the target, data times the SI factor, nothing else touched, caches "
+         "reset), 'a refused single-quantity conversion changes nothing' for ALL states and ALL argument strings, convert() = the three steps in "
+         "sequence keeping completed steps, and by induction over ARBITRARY histories of calls naming a representation: no refusal, labels = "
+         "last request of each kind, data = ORIGINAL data converted directly, constructor-valid labels, converting back restores the data; for any "
+         "adsorbate whose constants are read at the kelvin temperature. Calls omitting the unit are covered by the no-op theorem. Histories of real "
+         "PointIsotherms (incl. CoolProp adsorbates stored in degC) are compared with the generated model after every call, and judged by an "
+         "independent direct-conversion oracle. Partial only in that the history theorem quantifies over calls that name a full representation.",
+    note="Trusted: Coq kernel; Reals axioms; translators tools/py2v_iso.py + py2v_units.py (validated by the per-call correspondence); pandas column "
+         "arithmetic modelled as element-wise scalar arithmetic (conv_col); adsorbate/material property reads are oracles; RNum/QNum carrier argument.",
+    technique="Coq proof (evaluation over label space + induction over histories) on a model regenerated from source; per-call correspondence")
+
 HEADER = """From Coq Require Import QArith ZArith String List.
 From PG Require Import Lib.Num Lib.Py Lib.Show Gen.UnitsGen1 Units.AdsOracle Gen.UnitsGen2 Iso.IsoState Gen.IsoGen Iso.IsoShow.
 Import ListNotations. Open Scope string_scope.
